@@ -2,6 +2,8 @@ import AFDriver.Wire
 import AFDriver.C03
 import AFModel.FloatOps
 import AFModel.Fitness
+import AFModel.SearchTable
+import AFModel.Generated.C04
 
 open Lean (Json)
 open AF AF.Wire
@@ -22,7 +24,26 @@ def jsonOfResult : CallResult Float → Json
   | .value x => Json.str (hexOfFloat x)
   | .raises => Json.str "raises"
 
+def jsonOfRow (r : SearchRow) : Json :=
+  Json.mkObj [("name", r.name),
+    ("family", match r.family with | .nest => "nest" | .mcmc => "mcmc" | .mle => "mle"),
+    ("owner", r.owner),
+    ("fitness_class", match r.fitnessClass with | .plain => "plain" | .pyswarms => "pyswarms"),
+    ("fom_is_log_likelihood", r.fomIsLL), ("convert_to_chi_squared", r.convertChi),
+    ("history", match r.history with | .off => "off" | .on => "on" | .dynamic => "dynamic"),
+    ("resample_bits", hexOfNat r.resampleBits.toNat 16), ("passes_paths", r.passesPaths),
+    -- what the model derives from the row
+    ("minimises", r.minimises), ("posterior", r.posterior),
+    ("resample_received", hexOfFloat (rowResample floatFom r)),
+    ("designated", rowDesignated floatFom r)]
+
+/-- `kind = "table"`: the compiled table of search classes -/
+def handleC04Table : Json :=
+  Json.mkObj [("rows", Json.arr ((Generated.C04.searchRows.map jsonOfRow).toArray)),
+    ("default", jsonOfRow Generated.C04.defaultRow)]
+
 def handleC04 (j : Json) : Except String Json := do
+  if (getStr j "kind").toOption == some "table" then return handleC04Table
   let parsed ← parseNode (← j.getObjVal? "comp")
   let t := parsed.node
   let lims ← parseLims (← j.getObjVal? "lims")
@@ -41,6 +62,16 @@ def handleC04 (j : Json) : Except String Json := do
     let v ← vecOfJson (← c.getObjVal? "v")
     let o ← parseOutcome (← c.getObjVal? "o")
     pure (v, o)
+  -- `search` given: the flags come from the table row of that search class, not from the request
+  if let some name := (getStr j "search").toOption then
+    match findRow Generated.C04.searchRows name with
+    | none => throw s!"no row for search class {name}"
+    | some r =>
+      let hist := (getBool j "hist").toOption.getD false
+      let (rs, st) := rowRun floatFom r hist g lp {} calls
+      return Json.mkObj [("results", Json.arr (rs.map jsonOfResult).toArray),
+        ("hist_params", Json.arr (st.params.map jsonOfVec).toArray),
+        ("hist_ll", jsonOfVec st.lls)]
   let pyswarms := (getBool j "pyswarms").toOption.getD false
   if pyswarms then
     let rs := pyswarmsBatch floatFom cfg g lp calls
